@@ -21,4 +21,8 @@ CASES = [
      "edits": [(VB, "        sf.ops.Interferometer(U1) | q\n\n        for i in range(n_modes):\n            sf.ops.Sgate(r[i]) | q[i]", "        for i in range(n_modes):\n            sf.ops.Sgate(r[i]) | q[i]\n\n        sf.ops.Interferometer(U1) | q")]},
     {"id": "twin-theta-local", "expect": "silent",
      "edits": [(DY, "        for i in range(n_modes):\n            sf.ops.Rgate(theta[i]) | q[i]", "        for i in range(n_modes):\n            rot = sf.ops.Rgate(theta[i])\n            rot | q[i]")]},
+    {"id": "orbit-probability-fit-guard-on-photon-number", "expect": "fire", "key": "C20.fit-guard",
+     "edits": [("apps/similarity.py", "    state = _get_state(graph, n_mean, loss)\n\n    click = orbit + [0] * (modes - len(orbit))", "    if photons > modes:\n        return 0.0\n    state = _get_state(graph, n_mean, loss)\n\n    click = orbit + [0] * (modes - len(orbit))")]},
+    {"id": "twin-orbit-probability-fit-guard-on-orbit-length", "expect": "silent",
+     "edits": [("apps/similarity.py", "    state = _get_state(graph, n_mean, loss)\n\n    click = orbit + [0] * (modes - len(orbit))", "    if len(orbit) > modes:\n        return 0.0\n    state = _get_state(graph, n_mean, loss)\n\n    click = orbit + [0] * (modes - len(orbit))")]},
 ]
